@@ -8,7 +8,9 @@ Extracted (pure `ast`; raises when the source no longer has the expected shape):
     (`reraise` | `restartOrReraise`); a normal return of `_run()` must be followed by `break`;
   * what `Actor.start()` does (guard on `is_running`, clear, add one task);
   * the shape of `BackgroundService.wait()/stop()`: whether the exception group is raised inside the
-    batch loop (per batch) or after it (all rounds), and whether `stop()` cancels once or in every round.
+    batch loop (per batch) or after it (all rounds), and whether `stop()` cancels once or in every round;
+  * `_internal/_asyncio.cancel_and_await`: the early-return guard as a Lean function of (`task.done()`,
+    `task.cancelling()`), whether it calls `task.cancel()`, and that `await task` swallows only `CancelledError`.
 """
 from __future__ import annotations
 
@@ -16,7 +18,8 @@ import ast
 import pathlib
 
 NAME = "Actor"
-SOURCES = ["src/frequenz/sdk/actor/_actor.py", "src/frequenz/sdk/actor/_background_service.py"]
+SOURCES = ["src/frequenz/sdk/actor/_actor.py", "src/frequenz/sdk/actor/_background_service.py",
+           "src/frequenz/sdk/_internal/_asyncio.py"]
 
 
 class Bad(Exception):
@@ -317,7 +320,72 @@ def _service(src: str) -> list[str]:
     ]
 
 
+# ----------------------------------------------------------------------------- _internal/_asyncio.py
+def _guard(e: ast.expr, task: str) -> str:
+    """The early-return test of cancel_and_await as a Lean Bool over `done : Bool` and `cancelling : Nat`."""
+    if isinstance(e, ast.BoolOp):
+        op = " || " if isinstance(e.op, ast.Or) else " && "
+        return "(" + op.join(_guard(v, task) for v in e.values) + ")"
+    if isinstance(e, ast.UnaryOp) and isinstance(e.op, ast.Not):
+        return f"(!{_guard(e.operand, task)})"
+    s = ast.unparse(e)
+    if s == f"{task}.done()":
+        return "done"
+    if s == f"{task}.cancelling()":          # truthiness of an int
+        return "decide (cancelling > 0)"
+    if s == f"{task}.cancelled()":
+        raise Bad("guard uses task.cancelled(): not modelled")
+    if isinstance(e, ast.Compare) and len(e.ops) == 1 and ast.unparse(e.left) == f"{task}.cancelling()" \
+            and isinstance(e.comparators[0], ast.Constant) and isinstance(e.comparators[0].value, int):
+        sym = {ast.Lt: "<", ast.LtE: "≤", ast.Gt: ">", ast.GtE: "≥", ast.Eq: "=", ast.NotEq: "≠"}.get(type(e.ops[0]))
+        if sym:
+            return f"decide (cancelling {sym} {e.comparators[0].value})"
+    if isinstance(e, ast.Constant) and isinstance(e.value, bool):
+        return "true" if e.value else "false"
+    raise Bad(f"cancel_and_await guard: unsupported {s}")
+
+
+def _cancel_and_await(src: str) -> list[str]:
+    tree = ast.parse(src)
+    fn = next((n for n in tree.body if isinstance(n, ast.AsyncFunctionDef) and n.name == "cancel_and_await"), None)
+    if fn is None:
+        raise Bad("cancel_and_await not found")
+    task = fn.args.args[0].arg
+    body = _strip(fn.body)
+    guard = "false"
+    if body and isinstance(body[0], ast.If):
+        g = body[0]
+        if g.orelse or [ast.unparse(x) for x in g.body] != ["return"]:
+            raise Bad("cancel_and_await: first `if` is not an early return")
+        guard = _guard(g.test, task)
+        body = body[1:]
+    cancels = False
+    if body and ast.unparse(body[0]) == f"{task}.cancel()":
+        cancels = True
+        body = body[1:]
+    if not (len(body) == 1 and isinstance(body[0], ast.Try)):
+        raise Bad("cancel_and_await: expected `try: await task except CancelledError: pass` at the end")
+    tr = body[0]
+    if [ast.unparse(x) for x in tr.body] != [f"await {task}"] or tr.orelse or tr.finalbody:
+        raise Bad("cancel_and_await: try body is not `await task`")
+    swallow = False
+    for h in tr.handlers:
+        ty = ast.unparse(h.type) if h.type is not None else "BaseException"
+        if ty in ("asyncio.CancelledError", "CancelledError") and [ast.unparse(x) for x in h.body] == ["pass"]:
+            swallow = True
+        else:
+            raise Bad(f"cancel_and_await: handler for {ty} not recognised")
+    return [
+        "/-- `cancel_and_await`: the test of its early `return` (`done` = `task.done()`, `cancelling` = `task.cancelling()`). -/\n"
+        f"def caEarlyReturn (done : Bool) (cancelling : Nat) : Bool := {guard}",
+        f"/-- `cancel_and_await` calls `task.cancel()` before awaiting. -/\ndef caCancels : Bool := {'true' if cancels else 'false'}",
+        "/-- `await task` inside `cancel_and_await` swallows `CancelledError` (and nothing else). -/\n"
+        f"def caSwallowsCancelled : Bool := {'true' if swallow else 'false'}",
+    ]
+
+
 def generate(repo: pathlib.Path) -> str:
     a = _actor((repo / SOURCES[0]).read_text())
     b = _service((repo / SOURCES[1]).read_text())
-    return "namespace Extracted.Actor\n\n" + "\n\n".join(a + b) + "\n\nend Extracted.Actor\n"
+    c = _cancel_and_await((repo / SOURCES[2]).read_text())
+    return "namespace Extracted.Actor\n\n" + "\n\n".join(a + b + c) + "\n\nend Extracted.Actor\n"
